@@ -113,3 +113,11 @@ package sts
 //@   modifies nothing
 //@ interface Recovered.GetSendSize trusted
 //@   modifies nothing
+
+// ---------------------------------------------------------------- directories of the configuration (C14)
+
+// a path that is not configured and has no default (the serve directory) stays empty - it is never
+// resolved against the root, which would make the root itself the directory
+//@ func InitPaths
+//@   before call mkpath assert only-configured-paths-are-resolved: arg0 == p && *p != "" && !hasprefix(*p, "s3://")
+//@   modifies everything
